@@ -112,7 +112,7 @@ def main(argv=None):
     budget = 20000 if tier == "quick" else 180000
     budget = getattr(mod, "TIMEOUT_MS", {}).get(tier, budget)
     t1 = time.time()
-    solve.discharge(obs, timeout_ms=budget, use_cvc5=True)
+    solve.discharge(obs, timeout_ms=budget, use_cvc5=True, cross=(tier == "thorough"))
     solve_s = time.time() - t1
 
     known = load_known()
@@ -132,7 +132,7 @@ def main(argv=None):
             v = ob.meta['result']['verdict']
             if v == "valid":
                 continue
-            if ob.expect in ("sat", "fail"):
+            if ob.expect in ("sat", "fail") or v == "backend-disagreement":
                 guard_errors.append((name, v))
             else:
                 failing.setdefault(name, []).append(ob)
